@@ -399,10 +399,32 @@ fn gen_cost(rng: &mut Rng, max_w: u64, allow_curves: bool) -> (u64, Option<CostD
     let entries = rng.range(len as u64, 2 * len as u64) as usize;
     let prefix = cyclic_cost_prefix(&pattern, entries);
     let wcet = prefix[0];
-    let cost = if rng.chance(1, 2) {
-        CostDesc::Curve(prefix)
-    } else {
-        CostDesc::Extrap(prefix)
+    let (cost, pattern) = match rng.below(3) {
+        0 => (CostDesc::Curve(prefix), pattern),
+        1 => (CostDesc::Extrap(prefix), pattern),
+        _ => {
+            // `wcet::Multiframe` charges n jobs the first n frames (from frame 0).  That bounds
+            // every run of n consecutive jobs of a source that cycles through the frames from an
+            // arbitrary phase iff the frame vector is accumulatively monotonic (checking runs of up
+            // to one cycle suffices); a non-increasing vector always is.  (The scenario check re-validates every run against the library's
+            // `cost_of_jobs`.)
+            let l = pattern.len();
+            let runs = cyclic_cost_prefix(&pattern, l);
+            let am_rotation = (0..l).find(|r| {
+                (1..=l).all(|n| (0..n).map(|k| pattern[(r + k) % l]).sum::<u64>() == runs[n - 1])
+            });
+            let frames: Vec<u64> = match am_rotation {
+                // an accumulatively monotonic rotation of the pattern itself (cheap frames may
+                // precede expensive ones: `least_wcet(n)` is not simply the n-th frame)
+                Some(r) => (0..l).map(|k| pattern[(r + k) % l]).collect(),
+                None => {
+                    let mut f = pattern;
+                    f.sort_unstable_by(|a, b| b.cmp(a));
+                    f
+                }
+            };
+            (CostDesc::Multiframe(frames.clone()), frames)
+        }
     };
     (wcet, Some(cost), pattern)
 }
@@ -1239,6 +1261,9 @@ pub fn ros_item(sh: &RosShared, k: u64, acc: &mut Acc, note: &dyn Fn(&str)) {
         Analysis::EcrtsChain => acc.counters.inc("inputs.ecrts19_chain"),
         Analysis::Rr => acc.counters.inc("inputs.rr"),
         Analysis::Bw => acc.counters.inc("inputs.bw"),
+    }
+    if wl.cbs.iter().any(|cb| matches!(cb.cost, Some(CostDesc::Multiframe(_)))) {
+        acc.counters.inc("inputs.with_multiframe_cost_model");
     }
     sh.inputs.insert(hash_str(&format!("{:?}/{}", wl, which.name())));
     let prep = match ros_prepare(&wl) {
